@@ -13,7 +13,12 @@ use std::sync::{Arc, Mutex};
 use std::thread::JoinHandle;
 #[cfg(kani)]
 use crate::verif_kani::rt::thread::JoinHandle;
+#[cfg(not(kani))]
 use std::time::{Duration, Instant};
+#[cfg(kani)]
+use std::time::Duration;
+#[cfg(kani)]
+use crate::verif_kani::rt::Instant;
 #[cfg(not(kani))]
 use std::{fmt, thread};
 #[cfg(kani)]
@@ -963,3 +968,9 @@ mod tests {
         assert_eq!(received.lock().unwrap().len(), 1);
     }
 }
+
+// verification hook (H5): in-module Kani harnesses for the channeled-subscriber machinery
+// (ChanneledSubscriber and subscribed_loop are private to this module)
+#[cfg(kani)]
+#[path = "/verif/kani/harness/in_store.rs"]
+mod verif_kani_in_store;
